@@ -101,7 +101,7 @@ func frozenConstants(c *Ctx, r *Report, rule string, spec *formatSpec) {
 
 // varintDep pins the varint library by module path, version and hash.
 func varintDep(c *Ctx, r *Report, rule string, spec *formatSpec) {
-	r.rule(rule, 3, "the sqlite4 varint codec is github.com/mohae/uvarint at the pinned version and go.sum hash; uvarintToBytes/FromBytes resolve to its Encode/Decode")
+	r.rule(rule, 2, "the sqlite4 varint codec is github.com/mohae/uvarint at the pinned version and go.sum hash (the wrappers around it: rule varint-wrappers)")
 	gomod, err := os.ReadFile(filepath.Join(c.Repo, "go.mod"))
 	if err != nil {
 		r.bad(rule, "go.mod", err.Error(), "")
@@ -120,10 +120,23 @@ func varintDep(c *Ctx, r *Report, rule string, spec *formatSpec) {
 	}
 	r.check(strings.HasPrefix(found, wantHash) && found == uvarintH1, rule, "go.sum", found,
 		fmt.Sprintf("go.sum hash for %s is %q, pinned %q", spec.VarintModule, found, uvarintH1), "go.sum")
-	// the two wrappers
+	ruleVarintWrappers(c, r, "varint-wrappers", spec.VarintModule)
+}
+
+// ruleVarintWrappers: the operand/length codec on both sides (compiler and
+// Dump write with uvarintToBytes, VM and Load read with uvarintFromBytes) is
+// one library's Encode/Decode pair, reached through plain wrappers: a single
+// return statement handing the parameters through. A fast path, a local
+// re-implementation or a different library on one side makes writer and
+// reader disagree for some values (the boundaries 240/241, 2287/2288, ...).
+func ruleVarintWrappers(c *Ctx, r *Report, rule string, module string) {
+	if module == "" {
+		module = "github.com/mohae/uvarint"
+	}
+	r.rule(rule, 2, "uvarintToBytes and uvarintFromBytes are plain wrappers — one return statement passing their parameters, in order, to "+module+".Encode / .Decode — so that every writer and every reader of a varint use the two halves of one codec")
 	for _, w := range []struct{ fn, callee string }{
-		{"uvarintToBytes", spec.VarintModule + ".Encode"},
-		{"uvarintFromBytes", spec.VarintModule + ".Decode"},
+		{"uvarintToBytes", module + ".Encode"},
+		{"uvarintFromBytes", module + ".Decode"},
 	} {
 		_, fd := c.find(w.fn)
 		if fd == nil {
@@ -131,14 +144,32 @@ func varintDep(c *Ctx, r *Report, rule string, spec *formatSpec) {
 			continue
 		}
 		r.fn(w.fn)
-		n, okc := 0, false
-		walkCalls(fd.Body, false, func(call *ast.CallExpr) {
-			n++
-			if c.calleeName(call) == w.callee {
-				okc = true
+		ok := false
+		why := "the body is not a single return statement"
+		if len(fd.Body.List) == 1 {
+			if rs, isR := fd.Body.List[0].(*ast.ReturnStmt); isR && len(rs.Results) == 1 {
+				if call, isC := rs.Results[0].(*ast.CallExpr); isC {
+					why = "it calls " + c.calleeName(call)
+					if c.calleeName(call) == w.callee {
+						ok = true
+						k := 0
+						for _, f := range fd.Type.Params.List {
+							for _, nm := range f.Names {
+								if k >= len(call.Args) || !c.isObj(call.Args[k], c.objOf(nm)) {
+									ok = false
+									why = "the parameters are not passed through unchanged"
+								}
+								k++
+							}
+						}
+						if k != len(call.Args) {
+							ok = false
+						}
+					}
+				}
 			}
-		})
-		r.check(okc && n == 1, rule, w.fn, "calls "+w.callee, fmt.Sprintf("%s must be a plain wrapper of %s (found %d calls)", w.fn, w.callee, n), c.pos(fd.Pos()))
+		}
+		r.check(ok, rule, w.fn, "return "+w.callee+"(params…)", fmt.Sprintf("%s must be a plain wrapper of %s (%s): any other encoding path can disagree with the decoder on the other side", w.fn, w.callee, why), c.pos(fd.Pos()))
 	}
 }
 
